@@ -61,9 +61,8 @@ Canonical(o) ==
 
 (* A malformed observation has no abstract value: it is adopted as form "bad" (C08 is reported on the event *)
 (* that produced it) and every later event that names such a register is skipped, not judged.              *)
-(* precisions at or above 2^30 are outside the model (TLC integers): such a register is adopted as "bad" too, *)
-(* i.e. later events that name it are skipped, but it is NOT reported as malformed                          *)
-Modelable(o) == o.prec < 1073741824
+(* precisions at or above 2^30 are observed as the sentinel 2^30 = MaxPrec of the model (TLC integers are 32-bit) *)
+Modelable(o) == o.prec <= 1073741824
 AbsObs(o) ==
   IF ~Canonical(o) \/ ~Modelable(o) THEN MkDec("bad", o.neg, Zero, IZero, o.prec, IF o.mode \in Modes THEN o.mode ELSE 0, 0)
   ELSE IF o.form = "finite"
@@ -109,6 +108,9 @@ HomePid(op) ==
     [] op \in {"SetBitsExp", "SetBitsExpSelf", "BitsExp", "MantExp", "SetMantExp"} -> {"C20"}
     [] op \in {"SetFloat64", "SetFloat", "Float64", "Float32", "Float"} -> {"C15"}
     [] op \in {"SetInt", "SetInt64", "SetUint64", "SetRat", "NewDecimal", "Int", "Int64", "Uint64", "Rat", "IsInt"} -> {"C14"}
+    [] op \in {"Add", "Sub", "Mul", "Quo", "Set", "SetPrec", "SetPrecMax", "Neg", "Abs"} -> {"C01"}
+    [] op \in {"N.mul", "N.sqr", "N.div"} -> {"C06"}
+    [] op \in {"Cmp", "Preds"} -> {"C16"}
     [] op = "Sqrt" -> {"C05"}
     [] op = "FMA" -> {"C03"}
     [] OTHER -> {}
@@ -285,12 +287,16 @@ TSqrt ==
                     \cup (IF IIsEven(x.exp) THEN {"Sqrt:even-exp"} ELSE {"Sqrt:odd-exp"})
                     \cup (IF z.prec = 0 THEN {"Sqrt:prec0"} ELSE IF z.prec < x.prec THEN {"Sqrt:zprec<xprec"} ELSE IF z.prec = x.prec THEN {"Sqrt:zprec=xprec"} ELSE {"Sqrt:zprec>xprec"})
                ELSE {}
-     IN StepDev(w, ModeTag \cup RoundTags(w) \cup {"Sqrt:" \o x.form} \cup sq, decl, dev)
+         \* "the receiver's precision and rounding mode are the same after the call as before it" is part of C05
+         attr == {<<t[1], "C05", t[3]>> : t \in {u \in MisZ(w) : u[2] = "C09"}}
+     IN StepDev(w, ModeTag \cup RoundTags(w) \cup {"Sqrt:" \o x.form} \cup sq, decl \cup attr, dev)
 TNeg == IsEv("Neg") /\ Step(OpNeg(Pre(Ev.z), Pre(Ev.x)), ModeTag)
 TAbs == IsEv("Abs") /\ Step(OpAbs(Pre(Ev.z), Pre(Ev.x)), ModeTag)
 TSet == IsEv("Set") /\ LET w == OpSet(Pre(Ev.z), Pre(Ev.x)) IN Step(w, ModeTag \cup RoundTags(w))
 TCopy == IsEv("Copy") /\ Step(OpCopy(Pre(Ev.z), Pre(Ev.x)), {})
 TSetPrec == IsEv("SetPrec") /\ LET w == OpSetPrec(Pre(Ev.z), Ev.p) IN Step(w, ModeTag \cup RoundTags(w))
+(* SetPrec(MaxPrec): precisions >= 2^30 are observed (and modelled) as the sentinel 2^30 *)
+TSetPrecMax == IsEv("SetPrecMax") /\ LET w == OpSetPrec(Pre(Ev.z), MaxPrec) IN Step(w, ModeTag \cup RoundTags(w))
 TSetMode == IsEv("SetMode") /\ Step(OpSetMode(Pre(Ev.z), Ev.m), {})
 TSetInf == IsEv("SetInf") /\ Step(OpSetInf(Pre(Ev.z), Ev.neg), {})
 TNew == IsEv("New") /\ Step(Outcome("ok", ZeroValue, {}, {"C08"}), {})
@@ -704,7 +710,7 @@ TPreds14 ==
   /\ IsEv("IsInt")
   /\ LET x == Pre(Ev.x) IN Observe(Ev.ret.isint = IsInteger(x) /\ Ev.ret.minprec = MinPrecOf(x), "C14", {"IsInt:" \o ToString(IsInteger(x))})
 
-CoreNext == TReset \/ TPanic \/ TLoad \/ TAdd \/ TSub \/ TMul \/ TQuo \/ TFMA \/ TSqrt \/ TNeg \/ TAbs \/ TSet \/ TCopy \/ TSetPrec \/ TSetMode
+CoreNext == TReset \/ TPanic \/ TLoad \/ TAdd \/ TSub \/ TMul \/ TQuo \/ TFMA \/ TSqrt \/ TNeg \/ TAbs \/ TSet \/ TCopy \/ TSetPrec \/ TSetPrecMax \/ TSetMode
             \/ TSetInf \/ TNew \/ TSetInt64 \/ TSetUint64 \/ TNewDecimal \/ TSetInt \/ TSetRat \/ TInt64 \/ TUint64 \/ TInt \/ TRat \/ TPreds14 \/ TSetFloat64 \/ TSetFloat \/ TFloat64 \/ TFloat32 \/ TFloat \/ TGobEncode \/ TGobDecode \/ TGobMutate \/ TGobRoundTrip \/ TGobStream \/ TSetMantExp \/ TMantExp \/ TSetBitsExp \/ TSetBitsExpSelf \/ TBitsExp \/ TCmp \/ TPreds
 
 TraceInit == l = 1 /\ regs = <<>> /\ dgs = <<>> /\ bad = {} /\ cov = <<>> /\ vres = <<>> /\ ctxs = <<>> /\ pool = <<>>
